@@ -608,6 +608,112 @@ def run_trade_case(case: Dict[str, Any], res: ShardResult) -> None:
 
 # ---------------------------------------------------------------------------------------------
 
+# ---------------------------------------------------------------------------------------------
+# exchange level: several subscribers to the bars of one pair on a Bitstamp exchange fed by a (fake) websocket
+# ---------------------------------------------------------------------------------------------
+
+def gen_exchange_case(r) -> Dict[str, Any]:
+    dur = r.choice([1, 2, 5])
+    subs = [{"skip_first_bar": r.random() < 0.5, "flush_delay": r.choice([0.1, 0.1, 0.5])} for _ in range(r.choice([2, 2, 3]))]
+    if r.random() < 0.6:
+        subs[1]["skip_first_bar"] = not subs[0]["skip_first_bar"]
+        subs[1]["flush_delay"] = subs[0]["flush_delay"]
+    trades = []
+    for w in range(3):
+        for _ in range(r.randint(1, 3)):
+            trades.append({"win": w, "off": round(r.uniform(0.15, 0.8) * dur, 3), "exp": len(trades),
+                           "price": str(r.randint(90, 110))})
+    trades.sort(key=lambda t: (t["win"], t["off"]))
+    return {"part": "exchange", "duration": dur, "subs": subs, "trades": trades, "start_off": round(r.uniform(0.02, 0.1) * dur, 3)}
+
+
+def run_exchange_case(case: Dict[str, Any], res: ShardResult) -> None:
+    """Every subscriber gets the bars its own options describe: with skip_first_bar=False a bar for the window in which
+    the subscription started, with skip_first_bar=True none; from the next window on all of them get the same bars."""
+    from vf import vclock
+    from vf.wsfault import fake
+    from basana.core import dispatcher
+    from basana.core.pair import Pair
+    from basana.external.bitstamp import exchange as bsx
+    dur = case["duration"]
+    got: Dict[int, List[tuple]] = {i: [] for i in range(len(case["subs"]))}
+    with vclock.virtual_time(start_ns=int(case["start_off"] * 1e9)) as loop:
+        d = dispatcher.realtime_dispatcher()
+        peer = fake.Peer(loop, loop.time())
+        ov = {"api": {"http": {"base_url": "http://x/"}, "websockets": {"base_url": "ws://x/"}}}
+        ex = bsx.Exchange(d, "k", "s", session=fake.FakeSession(peer), config_overrides=ov)
+        pair = Pair("BTC", "USD")
+
+        def mk(i):
+            async def h(ev):
+                b = ev.bar
+                got[i].append((int(round((b.datetime - vclock.EPOCH).total_seconds() * 1000)), b.open, b.high, b.low, b.close, b.volume))
+            return h
+        for i, sub in enumerate(case["subs"]):
+            ex.subscribe_to_bar_events(pair, dur, mk(i), skip_first_bar=sub["skip_first_bar"], flush_delay=sub["flush_delay"])
+
+        def on_frame(ws, msg):
+            if msg.get("event") == "bts:subscribe":
+                ws.push_json({"event": "bts:subscription_succeeded", "channel": msg["data"]["channel"], "data": {}})
+        peer.on_frame = on_frame
+
+        async def feeder():
+            for t in case["trades"]:
+                at = t["win"] * dur + t["off"]
+                delay = at - (loop.now_ns() / 1e9)
+                if delay > 0:
+                    await asyncio.sleep(delay)
+                ws = next((c for c in reversed(peer.conns) if not c.closed), None)
+                if ws is None:
+                    continue
+                micro = int(vclock.EPOCH_TS * US) + int(round(at * US))
+                ws.push_json({"event": "trade", "channel": "live_trades_btcusd",
+                              "data": {"id": t["exp"], "microtimestamp": str(micro), "amount_str": str(Decimal(2 ** t["exp"]) / Decimal(10 ** 8)),
+                                       "price_str": t["price"], "type": 0, "buy_order_id": 1, "sell_order_id": 2}})
+            await asyncio.sleep(4 * dur + 2 - loop.now_ns() / 1e9)
+            d.stop()
+
+        async def main():
+            await asyncio.gather(d.run(stop_signals=[]), feeder())
+        try:
+            loop.run_until_complete(asyncio.wait_for(main(), timeout=100 * dur))
+        except Exception as ex_:  # noqa
+            res.violate(Violation("C19", "exchange_run_failed", f"{type(ex_).__name__}: {ex_}", scenario=case))
+            return
+    res.evaluations += 1
+    res.count("exchange_level_cases")
+    # reference bars per window from the trades (amounts are distinct powers of two)
+    ref = {}
+    for w in range(3):
+        ts = [t for t in case["trades"] if t["win"] == w]
+        if ts:
+            prices = [Decimal(t["price"]) for t in ts]
+            ref[w * dur * 1000] = (prices[0], max(prices), min(prices), prices[-1],
+                                   sum((Decimal(2 ** t["exp"]) / Decimal(10 ** 8) for t in ts), Decimal(0)))
+    for i, sub in enumerate(case["subs"]):
+        bars = {b[0]: b[1:] for b in got[i]}
+        res.count("exchange_level_bars", len(bars))
+        for w_ms, want in ref.items():
+            first = w_ms == 0
+            have = bars.get(w_ms)
+            if first and sub["skip_first_bar"]:
+                if have is not None:
+                    res.violate(Violation("C19", "first_bar_not_skipped",
+                                          f"subscriber {i} asked to skip the first (incomplete) bar but received {have} "
+                                          f"(subscriptions {case['subs']})", scenario=case))
+                continue
+            if have is None:
+                res.violate(Violation("C19", "bar_missing",
+                                      f"exchange level: subscriber {i} ({sub}) got no bar for the window starting at {w_ms} ms "
+                                      f"although {want[4]} was traded in it (subscriptions {case['subs']})", scenario=case))
+            elif tuple(have) != tuple(want):
+                res.violate(Violation("C19", "bar_ohlc_mismatch",
+                                      f"exchange level: subscriber {i} window {w_ms} ms: got {have}, expected {want}", scenario=case))
+    if len({s_["skip_first_bar"] for s_ in case["subs"]}) == 2:
+        res.nontrivial.add(common.digest(["exchange", dur, [(s_["skip_first_bar"], s_["flush_delay"]) for s_ in case["subs"]],
+                                          [t["win"] for t in case["trades"]]]))
+
+
 def run_shard(ctx: Context, res: ShardResult) -> None:
     tmpdir = tempfile.mkdtemp(prefix="vf-c19-")
     try:
@@ -615,7 +721,9 @@ def run_shard(ctx: Context, res: ShardResult) -> None:
             if ctx.out_of_time():
                 res.errors.append("ran out of time")
                 break
-            if k % 2 == 0:
+            if k % 25 == 7:
+                run_exchange_case(gen_exchange_case(ctx.rng("exchange", i)), res)
+            elif k % 2 == 0:
                 run_csv_case(gen_csv_case(ctx.rng("csv", i)), res, tmpdir)
             else:
                 run_trade_case(gen_trade_case(ctx.rng("trades", i)), res)
@@ -630,6 +738,8 @@ def replay(prop: str, scenario: Dict[str, Any], res: ShardResult) -> None:
             run_csv_case(scenario, res, tmpdir)
         finally:
             shutil.rmtree(tmpdir, ignore_errors=True)
+    elif scenario["part"] == "exchange":
+        run_exchange_case(scenario, res)
     else:
         run_trade_case(scenario, res)
 
@@ -643,6 +753,8 @@ def finalize(prop: str, tier: str, merged: ShardResult) -> Dict[str, Any]:
         inc.append("fewer than 200 aggregated bars checked")
     if c.get("trades_must_count", 0) < 500:
         inc.append("fewer than 500 in-order trades observed")
+    if c.get("exchange_level_bars", 0) < 20:
+        inc.append("fewer than 20 bars observed through Exchange.subscribe_to_bar_events")
     if c.get("csv_invalid_files", 0) < 5:
         inc.append("invalid-OHLC path exercised fewer than 5 times")
     return {"inconclusive": inc}
